@@ -146,9 +146,26 @@ def build_harness(features, log):
     return os.path.join(tgt, prof, "harness")
 
 
-def run_prog(cmd, lines, cwd=None):
-    p = subprocess.run(cmd, input="\n".join(lines) + "\n", stdout=subprocess.PIPE, stderr=subprocess.PIPE,
-                       text=True, cwd=cwd)
+RUN_TIMEOUT = int(os.environ.get("VERIF_RUN_TIMEOUT", "240"))
+
+
+def run_prog(cmd, lines, cwd=None, timeout=None):
+    """feed the case lines to harness / driver. A run that does not finish within the limit (an implementation change that loops forever
+    on some case) returns rc = -9 and, as far as a bisection with short limits can tell, the index of the first line that hangs."""
+    try:
+        p = subprocess.run(cmd, input="\n".join(lines) + "\n", stdout=subprocess.PIPE, stderr=subprocess.PIPE,
+                           text=True, cwd=cwd, timeout=timeout or RUN_TIMEOUT)
+    except subprocess.TimeoutExpired:
+        lo, hi = 0, len(lines)          # invariant: prefix of length lo terminates, prefix of length hi does not (within the short limit)
+        while hi - lo > 1 and timeout is None:
+            mid = (lo + hi) // 2
+            try:
+                subprocess.run(cmd, input="\n".join(lines[:mid]) + "\n", stdout=subprocess.PIPE, stderr=subprocess.PIPE, text=True,
+                               cwd=cwd, timeout=max(20, RUN_TIMEOUT // 10))
+                lo = mid
+            except subprocess.TimeoutExpired:
+                hi = mid
+        return -9, [], "TIMEOUT first-hanging-line-index=%d" % (hi - 1)
     out = p.stdout.split("\n")
     if out and out[-1] == "":
         out.pop()
@@ -341,6 +358,11 @@ def main():
             break
         rc1, impl, err1 = run_prog([hbin], lines)
         rc2, model, err2 = run_prog([driver] + drv_arg.split(), lines)
+        if rc1 == -9 and err1.startswith("TIMEOUT"):
+            k = int(err1.split("=")[1])
+            violations.append({"kind": "the implementation does not terminate (harness exceeded %d s; the model answers this line)" % RUN_TIMEOUT,
+                               "config": cname, "case": lines[k] if 0 <= k < len(lines) else "?", "found_input": 0 <= k < len(lines)})
+            break       # (no point in waiting for the other configurations)
         if len(impl) != len(lines) or len(model) != len(lines):
             violations.append({"kind": "harness/driver crashed or lost lines", "config": cname, "found_input": False,
                                "impl_lines": len(impl), "model_lines": len(model), "n": len(lines),
